@@ -3,6 +3,8 @@ package props
 import (
 	"bytes"
 	"fmt"
+	"runtime/debug"
+	"sync"
 	"time"
 
 	"go.sia.tech/core/types"
@@ -305,14 +307,99 @@ func runC19(e *sim.Env) {
 		tip = newTip
 		checkQueries("after AddBlocks")
 	}
-	_ = diverged
 	_ = bytes.Equal
+	// a prune and a reorg at the same time (as a node that prunes on one
+	// goroutine while its syncer adds blocks on another): the outcome is that
+	// of one of the two orders, nothing in between
+	if !diverged && tip.Height >= 4 && e.Chance(1, 2) {
+		e.Step()
+		back := uint64(e.Range(2, int(min(tip.Height-1, 6))))
+		base := tip.Ancestor(tip.Height - back)
+		if !base.Valid() {
+			return
+		}
+		x := base
+		var fork []*gen.Node
+		for i := uint64(0); i < back+2; i++ {
+			x = tree.Extend(e, x, gen.BlockOpts{Now: now, Miner: types.VoidAddress})
+			fork = append(fork, x)
+		}
+		// at least one of the blocks the reorg reverts lies below the prune height
+		h := base.Height + 2 + uint64(e.Intn(int(back)-1))
+		oldPath, newPath := tip.PathFromGenesis(), x.PathFromGenesis()
+		var aerr error
+		var crash string
+		e.WithSchedule(300, func() {
+			var wg sync.WaitGroup
+			guard := func(fn func()) {
+				wg.Add(1)
+				go func() {
+					defer wg.Done()
+					defer func() {
+						if r := recover(); r != nil && crash == "" {
+							crash = fmt.Sprintf("%v\n%s", r, debug.Stack())
+						}
+					}()
+					fn()
+				}()
+			}
+			guard(func() { s.cm.PruneBlocks(h) })
+			guard(func() {
+				for i, d := 0, e.Range(0, 6); i < d; i++ {
+					sim.YieldPoint("reorg-start")
+				}
+				aerr = s.cm.AddBlocks(blocksOf(fork))
+			})
+			wg.Wait()
+		})
+		if crash != "" {
+			if sim.PanicInSUT(crash) {
+				e.Violationf("C19.panic", "concurrent-prune", "PruneBlocks concurrent with AddBlocks panicked: %.1500s", crash)
+			}
+			panic("C19 concurrent phase: " + crash)
+		}
+		prunes++
+		e.Fault("prune-concurrent-with-reorg")
+		e.Nontrivial = true
+		got := tree.ByID[s.cm.Tip().ID]
+		e.Logf("PruneBlocks(%d) concurrent with a reorg -%d +%d from %s -> err=%v tip %s", h, back, len(fork), base.Describe(), aerr != nil, got.Describe())
+		switch got {
+		case x:
+			// the reorg came first: the prune worked on the new best chain
+			if terr := twin.cm.AddBlocks(blocksOf(fork)); terr != nil {
+				e.Violationf("C19.same-as-unpruned", "twin", "the unpruned twin rejected the fork: %v", terr)
+			}
+			for _, n := range newPath {
+				if n.Height < h {
+					gone[n.ID] = true
+					delete(readded, n.ID)
+				}
+			}
+			e.Shape("concurrent", "reorg-first")
+		case tip:
+			// the prune came first: the reorg would have had to revert a pruned block
+			if aerr == nil {
+				e.Violationf("C19.pruned-request-errors", "no-error:concurrent", "a reorg that has to revert pruned blocks neither succeeded nor returned an error")
+			}
+			for _, n := range oldPath {
+				if n.Height < h {
+					gone[n.ID] = true
+					delete(readded, n.ID)
+				}
+			}
+			e.Shape("concurrent", "prune-first")
+		default:
+			e.Violationf("C19.failed-reorg-rolled-back", "concurrent:tip", "after PruneBlocks(%d) concurrent with a reorg from %s the tip is %s: neither the old tip %s nor the fork's %s", h, base.Describe(), got.Describe(), tip.Describe(), x.Describe())
+		}
+		tip = got
+		checkQueries(fmt.Sprintf("after PruneBlocks(%d) concurrent with a reorg", h))
+	}
 }
 
 func init() {
 	register(&Prop{
-		ID: "C19", Run: runC19, Quick: 900, Thorough: 20000, Level: "exploration",
-		Rule:        "one run = C01-style history on a node that is pruned at drawn moments (height 0, mid-chain, tip, tip+1, beyond the tip; repeated) and crashed/reopened now and then, next to an unpruned twin receiving the same submissions; after every prune and every submission: exactly the best-chain bodies below the pruned heights are gone, headers/states/best index/History/Headers/tip/element view equal the twin's, MinReorgIndex is the lowest height with contiguous bodies, UpdatesSince/BlocksForHistory either answer like the twin or fail with an error when a pruned body is needed, forks with fork point at or above MinReorgIndex give the twin's outcome, forks below fail with an error and leave the node unchanged; distinct = abstract trace (prune kinds, reorg depth buckets); non-trivial = at least one prune",
+		ID: "C19", Run: runC19, Flavour: "instrumented", Quick: 900, Thorough: 20000, Level: "exploration",
+		Rule:        "one run = C01-style history on a node that is pruned at drawn moments (height 0, mid-chain, tip, tip+1, beyond the tip; repeated) and crashed/reopened now and then, next to an unpruned twin receiving the same submissions; after every prune and every submission: exactly the best-chain bodies below the pruned heights are gone, headers/states/best index/History/Headers/tip/element view equal the twin's, MinReorgIndex is the lowest height with contiguous bodies, UpdatesSince/BlocksForHistory either answer like the twin or fail with an error when a pruned body is needed, forks with fork point at or above MinReorgIndex give the twin's outcome, forks below fail with an error and leave the node unchanged; half of the runs end with a PruneBlocks call concurrent with a reorg that reverts blocks below the prune height (seeded lock-yield scheduler): the result is that of one of the two orders; distinct = abstract trace (prune kinds, reorg depth buckets); non-trivial = at least one prune",
 		Real:        []string{"chain.Manager", "chain.DBStore (pruned node and unpruned twin)"},
 		Stub:        []string{"disk: simdisk.DB"},
 		Assumptions: []string{"blocks handed to the node again after pruning may or may not be served again (documented as unsupported); everything else about them is still checked"},
